@@ -154,6 +154,24 @@ static Res execute(Ctx &ctx, const Work &w, long k, long k2, long &ncalls)
 		else
 			r.out = std::string(json_tokener_error_desc((json_tokener_error)err)) + " " + canon(o);
 		json_object_put(o);
+		if (k >= 0)
+		{
+			// whatever the injected failure left behind, a reset tokener behaves like a new one
+			json_tokener_reset(tok);
+			json_object *a = json_tokener_parse_ex(tok, hc.p, (int)hc.n);
+			std::string ra = std::string(json_tokener_error_desc(json_tokener_get_error(tok))) + " @" + str(json_tokener_get_parse_end(tok)) + " " + canon(a);
+			json_object_put(a);
+			json_tokener *fresh = json_tokener_new();
+			json_object *b = json_tokener_parse_ex(fresh, hc.p, (int)hc.n);
+			std::string rb = std::string(json_tokener_error_desc(json_tokener_get_error(fresh))) + " @" + str(json_tokener_get_parse_end(fresh)) + " " + canon(b);
+			json_object_put(b);
+			json_tokener_free(fresh);
+			if (ra != rb)
+			{
+				json_tokener_free(tok);
+				ctx.fail("reset-after-fault", "after a parse with allocation call " + str(k) + " failing and json_tokener_reset, the tokener gives " + quote(ra, 200) + ", a new tokener " + quote(rb, 200));
+			}
+		}
 		json_tokener_free(tok);
 		break;
 	}
